@@ -197,7 +197,58 @@ def run(rep):
             if len(rep.cov["samples"]) < 6 and len(distinct) % 251 == 1:
                 rep.cov["samples"].append({"case": c["dir"], "family": c["family"], "plugin": c["plugin"], "input": c["what"],
                                            "rc": r["rc"], "stderr": r["out"].strip()[-200:]})
-        rep.cov["evaluations"] = len(cases)
+        # ---- several packages in one invocation: the run fails iff one of the named packages fails, wherever the
+        # failing package stands among the arguments and in the processing (path) order
+        alone = {c["dir"]: r for c, r in zip(cases, results)}
+        plain = [c for c in cases if not (c.get("preargs") or c.get("postargs")) and not alone[c["dir"]]["timeout"]]
+        goods = [c for c in plain if c.get("mustok") and alone[c["dir"]]["rc"] == 0 and c["family"] == "nonascii"]
+        bads = []
+        for want in ("conflict without -autoname", "duplicate without -dedup", "chan int @ top", "argument 0 replaced by chan", "undeclared type as map key"):
+            hit = [c for c in plain if want in c["what"] and alone[c["dir"]]["rc"] != 0 and not runs.CRASH.search(alone[c["dir"]]["out"])]
+            if hit:
+                bads.append(hit[len(hit) // 2])
+        multi = []
+        for bad in bads:
+            lo = [g for g in goods if g["dir"] < bad["dir"]][-2:]
+            hi = [g for g in goods if g["dir"] > bad["dir"]][:2]
+            group = lo + hi
+            if len(group) < 2:
+                continue
+            for pos in range(len(group) + 1):
+                order = group[:pos] + [bad] + group[pos:]
+                multi.append((bad, ["./" + c["dir"] for c in order]))
+            multi.append((bad, ["bad/" + c["dir"] for c in group[:1] + [bad] + group[1:]]))
+
+        def run_multi(job):
+            bad, args = job
+            for c in set(a.split("/")[-1] for a in args):  # fresh state: no derived files from the single runs
+                fp = os.path.join(root, c, "derived.gen.go")
+                if os.path.isfile(fp):
+                    os.remove(fp)
+            return runs.goderive(binp, root, args, timeout=3 * TIMEOUT)
+
+        mres = [run_multi(j) for j in multi]  # sequential: the groups share package directories
+        for (bad, args), r in zip(multi, mres):
+            if r["timeout"] or runs.CRASH.search(r["out"]):
+                e = classes.setdefault("C09/multi-package-crash", {"what": "crash or hang with several packages named: goderive %s: %s" % (" ".join(args), r["out"][-200:]),
+                                                                   "count": 0, "found": True, "replay": {"cmd": "goderive " + " ".join(args), "stderr": r["out"][-800:]}})
+                e["count"] += 1
+            elif r["rc"] == 0:
+                e = classes.setdefault("C09/failing-package-but-exit-0", {
+                    "what": "`goderive %s` exits 0 although package %s (%s) is refused when named alone (%s): a failure of a package that is not the last one "
+                            "processed is lost" % (" ".join(args), bad["dir"], bad["what"], alone[bad["dir"]]["out"].strip()[-160:]),
+                    "count": 0, "found": True,
+                    "replay": {"cmd": "goderive " + " ".join(args), "args": args, "case": bad["dir"], "family": "multi", "input": bad["what"],
+                               "files_by_package": {a.split("/")[-1]: runs.read_tree(os.path.join(root, a.split("/")[-1])) for a in args},
+                               "files": runs.read_tree(os.path.join(root, bad["dir"])), "rc": 0, "timeout": False, "stderr": r["out"][-800:],
+                               "observed": "exit 0 with a failing package among the arguments"}})
+                e["count"] += 1
+            elif not r["out"].strip():
+                e = classes.setdefault("C09/empty-diagnostic:multi", {"what": "non-zero exit without a message: goderive " + " ".join(args), "count": 0, "found": True,
+                                                                      "replay": {"cmd": "goderive " + " ".join(args)}})
+                e["count"] += 1
+        rep.cov["multi_package_invocations"] = len(multi)
+        rep.cov["evaluations"] = len(cases) + len(multi)
         rep.cov["programs"] = len(cases)
         rep.cov["distinct_nontrivial"] = len(distinct)
         rep.cov["disagreements_checked"] = len(cases)
